@@ -94,6 +94,60 @@ fn index_cases(rng: &mut Rng, thorough: bool) -> Vec<Case> {
             }
         }
     }
+    // NARROW index types on arrays whose BYTE size exceeds what the index type can hold while their
+    // LENGTH does not ([64]i32 is 256 bytes, a u8 reaches 255): the check compares with the length
+    // (seeded change C10_2 compared with the byte size and dropped the check)
+    for &(t, size, n, it, ib, imax) in &[
+        ("i32", 4u32, 64u64, "u8", 8u32, 255u64),
+        ("u64", 8, 40, "u8", 8, 255),
+        ("u16", 2, 200, "u8", 8, 255),
+        ("i32", 4, 20000, "u16", 16, 65535),
+        ("u8", 1, 300, "u16", 16, 65535),
+    ] {
+        for k in [n - 1, n, n + 1, (n + imax) / 2, imax] {
+            for (shape, write) in [("local", false), ("local", true), ("ptrmut", true), ("field", false)] {
+                if !thorough && shape == "field" {
+                    continue;
+                }
+                let decl = match shape {
+                    "local" => format!("    g1 : {t} = 7;\n    a : [{n}]{t};\n    g2 : {t} = 9;\n    a[{}] = 5;\n", n - 1),
+                    "field" => format!("    s : S;\n    s.g1 = 7;\n    s.g2 = 9;\n    s.a[{}] = 5;\n", n - 1),
+                    _ => format!("    arr : [{n}]{t};\n    arr[{}] = 5;\n    a : ^mut [{n}]{t} = ^mut arr;\n", n - 1),
+                };
+                let place = if shape == "field" { "s.a[i]" } else { "a[i]" };
+                let access = if write {
+                    format!("    {place} = 99;\n    core.println(\"AFTER\");\n")
+                } else {
+                    format!("    x := {place};\n    core.println(\"AFTER\");\n    core.println(x);\n")
+                };
+                let guards = if shape == "field" { "    core.println(s.g1);\n    core.println(s.g2);\n" } else if shape == "local" { "    core.println(g1);\n    core.println(g2);\n" } else { "" };
+                let sdef = if shape == "field" { format!("S :: struct {{ g1: {t}, a: [{n}]{t}, g2: {t} }};\n\n") } else { String::new() };
+                let src = format!(
+                    "{HDR}{sdef}idx :: (k: {it}) -> {it} {{ k }}\n\nmain :: () {{\n{decl}    i : {it} = idx({k});\n    core.println(\"BEFORE\");\n{access}{guards}}}\n"
+                );
+                let oob = k >= n;
+                let mut lines = vec!["BEFORE".to_string()];
+                if !oob {
+                    lines.push("AFTER".into());
+                    if !write {
+                        lines.push("5".into());
+                    }
+                    if shape == "field" || shape == "local" {
+                        lines.push("7".into());
+                        lines.push("9".into());
+                    }
+                }
+                out.push(Case {
+                    what: format!("narrow-index:{shape}{} [{n}]{t} index {k} : {it}", if write { "-write" } else { "-read" }),
+                    src,
+                    req: format!("C10 index {ib} 1000 {n} {size} {size} {} {k}", write as u8),
+                    expect_abort: oob,
+                    expect_lines: lines,
+                    abort_word: "out of bounds",
+                });
+            }
+        }
+    }
     // LITERAL indices on slices: there is no compile-time length, so the run-time check is the only
     // one (a literal index at or past the length must abort exactly like a computed one)
     for n in [1u64, 3] {
@@ -252,7 +306,7 @@ pub fn run(tier: &str, seed: u64, widen: bool) -> Report {
     let mut rep = Report::new(
         "C10",
         "real capy CLI + executable (lines printed before/after the access, exit status, abort message) vs the Lean plan model CapyV.Checks; literal indices through in-process hir_ty",
-        "template programs: arrays of u8/i32/u64/u16 with 1/3/5 elements as locals (with guard locals), as struct fields between guard fields, as slices, behind ^ and ^mut pointers, read and written at every run-time index 0..len+4 (index types usize/u8/u32); nested [2][3] arrays; #unwrap of every (current, requested) variant pair of an enum, an optional, a nullable pointer and an error union; literal indices 0..len+2 checked at compile time. Non-trivial = out-of-range / mismatching case; distinct by program text",
+        "template programs: arrays of u8/i32/u64/u16 with 1/3/5 elements as locals (with guard locals), as struct fields between guard fields, as slices, behind ^ and ^mut pointers, read and written at every run-time index 0..len+4 (index types usize/u8/u32); large arrays ([64]i32, [40]u64, [200]u16, [20000]i32, [300]u8) indexed by u8 / u16 at len-1, len, len+1, midway and the index type's maximum; nested [2][3] arrays; #unwrap of every (current, requested) variant pair of an enum, an optional, a nullable pointer and an error union; literal indices 0..len+2 checked at compile time. Non-trivial = out-of-range / mismatching case; distinct by program text",
     );
     if !e2e::available() {
         rep.notes.push("capy CLI binary missing".into());
